@@ -39,6 +39,8 @@ func checkC07(p *core.Program, r *core.Report) {
 	r.Rule("R3", "first match wins: matchCase walks recv.cases forward, returns inside the loop only for a truthy result with that case's CategoryUUID, and the error arm logs and continues")
 	r.Rule("R4", "no arbitrary choice: an empty exit fails the run; without a router the first exit is taken under len > 0; the random router's index derives only from random.Decimal, len(categories), Mul, IntPart")
 	r.Rule("R5", "Results.Save stores the result it is given on every path (the saved input/node/extra are those of the latest routing)")
+	r.Rule("R9", "translated case arguments replace the base arguments only when they are as many: in matchCase the result of the `arguments` lookup is compared by length with the case's own Arguments before it is evaluated (a translation with a different number of items otherwise makes the test fail on its argument count and the first matching case is skipped)")
+	r.Rule("R8", "calendar days are taken in one timezone: within a router test, the values handed to dates.ExtractDate agree on being converted with In(env.Timezone()) first (sibling agreement between the operand's date and the argument's date; a day compared across two zones makes an earlier case miss and a later one win)")
 	r.Rule("R7", "timeout routing is chosen for the run the timeout was applied to: the condition under which the engine calls Router.RouteTimeout instead of Route traces back, through parameters and every call site, only to a type test of the resume handed to the resuming function (a parameter) or to the constant false — never to session state such as the sprint's current resume, which is still a timeout when a parent run is resumed later in the same sprint")
 	r.Assumption("each test function matches what its documentation says; localisation of arguments is C18")
 
@@ -382,6 +384,8 @@ func checkC07(p *core.Program, r *core.Report) {
 	r.Check(!errArmReturns, "R3", "matchCase/error-arm-continues", p.Pos(mc.Pos()), "a test that returns an error is logged and the next case is tried", "a case whose test errors ends the matching: later cases are never tried")
 
 	c07R7(p, r)
+	c07R8(p, r)
+	c07R9(p, r, mc)
 	// ------------------------------------------------------------------ R4 pickNodeExit and random
 	failOK := false
 	for _, cs := range core.Calls(e.pick, false) {
@@ -643,4 +647,119 @@ func c07R7(p *core.Program, r *core.Report) {
 			"whether a node is left by its timeout category depends on "+map[bool]string{true: bad, false: "no type test of the resume at all"}[bad != ""]+": a parent run resumed after its child completes in a sprint started by a timeout would also be routed by RouteTimeout (its own wait's timeout category, or a failed run when it has none)")
 	}
 	r.Require("route_timeout_sites", n, 1)
+}
+
+// ---------------------------------------------------------------------------------------------- R8
+
+func c07R8(p *core.Program, r *core.Report) {
+	byFn := map[*ssa.Function][]core.CallSite{}
+	for _, cs := range p.AllCalls() {
+		o := core.CalleeObj(cs.Common())
+		if o == nil || !strings.HasSuffix(core.ObjName(o), "gocommon/dates.ExtractDate") || p.IsTestFile(cs.Pos()) {
+			continue
+		}
+		if core.RelPkg(core.FuncPkgPath(cs.Caller)) != "flows/routers/cases" {
+			continue
+		}
+		byFn[rootFn(cs.Caller)] = append(byFn[rootFn(cs.Caller)], cs)
+	}
+	n := 0
+	for fn, sites := range byFn {
+		if len(sites) < 2 {
+			continue
+		}
+		inTZ := func(cs core.CallSite) bool {
+			for v := range core.BackSlice(cs.Common().Args[0], func(*ssa.Call) bool { return true }) {
+				c, ok := v.(*ssa.Call)
+				if !ok {
+					continue
+				}
+				if o := core.CalleeObj(&c.Call); o != nil && o.Name() == "In" {
+					for w := range core.BackSlice(c, func(*ssa.Call) bool { return true }) {
+						if c2, ok := w.(*ssa.Call); ok && c2.Call.IsInvoke() && c2.Call.Method.Name() == "Timezone" {
+							return true
+						}
+					}
+				}
+			}
+			return false
+		}
+		nIn := 0
+		for _, cs := range sites {
+			if inTZ(cs) {
+				nIn++
+			}
+		}
+		for i, cs := range sites {
+			n++
+			r.Check(nIn == 0 || inTZ(cs), "R8", fmt.Sprintf("%s/ExtractDate#%d-in-env-timezone", core.FuncName(fn), i+1), p.Pos(cs.Pos()), "converted with In(env.Timezone()) like its siblings",
+				"this date is extracted without converting the value to the environment's timezone while the other one is: the two calendar days are taken in different zones, so has_date_eq/lt/gt pick the wrong case for instants near midnight")
+		}
+	}
+	r.Require("paired_extract_date_sites", n, 2)
+}
+
+// ---------------------------------------------------------------------------------------------- R9
+
+func c07R9(p *core.Program, r *core.Report, mc *ssa.Function) {
+	n := 0
+	for _, ec := range core.EffectiveCalls(mc, 1) {
+		cs := ec.Inner
+		o := core.CalleeObj(cs.Common())
+		if o == nil || core.ObjName(o) != "flows.Run.GetTextArray" {
+			continue
+		}
+		isArgs := false
+		for _, a := range cs.Common().Args {
+			if sc, ok := core.ConstString(a); ok && sc == "arguments" {
+				isArgs = true
+			}
+		}
+		call, ok := cs.Instr.(*ssa.Call)
+		if !isArgs || !ok {
+			continue
+		}
+		n++
+		// a length comparison between the lookup's result and a load of the case's Arguments field
+		compared := false
+		core.EachInstr(cs.Caller, false, func(_ *ssa.Function, in ssa.Instruction) {
+			bo, ok := in.(*ssa.BinOp)
+			if !ok || (bo.Op != token.EQL && bo.Op != token.NEQ) {
+				return
+			}
+			lenOf := func(v ssa.Value) ssa.Value {
+				a, ok := isLenCall(v)
+				if !ok {
+					return nil
+				}
+				return a
+			}
+			x, y := lenOf(bo.X), lenOf(bo.Y)
+			if x == nil || y == nil {
+				return
+			}
+			isLookup := func(v ssa.Value) bool {
+				for w := range core.BackSlice(v, nil) {
+					if ex, ok := w.(*ssa.Extract); ok && ex.Tuple == ssa.Value(call) && ex.Index == 0 {
+						return true
+					}
+				}
+				return false
+			}
+			isBase := func(v ssa.Value) bool {
+				for w := range core.BackSlice(v, nil) {
+					if fa, ok := w.(*ssa.FieldAddr); ok && core.FieldAddrVar(fa).Name() == "Arguments" {
+						return true
+					}
+				}
+				return false
+			}
+			if (isLookup(x) && isBase(y) && !isLookup(y)) || (isLookup(y) && isBase(x) && !isLookup(x)) {
+				compared = true
+			}
+		})
+		r.Check(compared, "R9", "SwitchRouter.matchCase/translated-arguments-same-count", p.Pos(cs.Pos()), "len(translated) is compared with len(case.Arguments)",
+			"the translated arguments of a case are used whatever their number: a translation with more or fewer items than the case has arguments changes what the test is called with, so the case the definition prescribes no longer wins")
+	}
+	r.Require("argument_lookups", n, 1)
 }
